@@ -161,6 +161,35 @@ var extraQueries = []string{
 	"select a, count(*) as c from t where a > 1 group by a having c > 1 order by a desc limit 10", "select * from a join b on a.x = b.y",
 }
 
+// argTemplates x hostileArgs: operators, functions and declarations whose arguments the compiler evaluates or
+// inspects at compile time (limits, constants, types, patterns), with § replaced by constants of every type and
+// at every boundary.  Mutation alone practically never writes `top uint64(2) x`.
+var argTemplates = []string{"head §", "tail §", "top § a", "top § -flush a,b", "sort a | head § | tail §", "const N=§ head N", "const N=§ top N a", "const N=§ tail N | top N b",
+	"const N=§ const M=N+N yield M", "summarize count() by a with -limit §", "count() by every(§)", "yield bucket(a,§)", "yield a[§]", "yield a[§:§]", "yield a[:§]", "over a with b=§ => ( head b )",
+	"yield cast(a,§)", "yield shape(§)", "yield §::uint8", "yield §::<§>", "yield <§>(§)", "yield round(§), pow(§,§), abs(§), sqrt(§), log(§)", "yield strftime(§,§)", "yield network_of(§,§), cidr_match(§,§)",
+	"yield regexp(§,s), regexp_replace(s,§,§)", "where grep(§,this)", "where a in §", "where a matches §", "yield §+§, §/§, §%§, -§, !§", "yield § < §, § == §", "yield §.a, §[0], §[§]",
+	"explode a by § as x", "merge a:§", "sort § | uniq", "sort -r §, § desc", "sample §", "cut §", "put §:=§", "rename §:=a", "drop §", "type T=§ yield <T>", "func f(x): (x+§) yield f(§)",
+	"op o(n): ( head n ) o(§)", "op o(n): ( top n a ) o(§)", "switch § ( case § => head § default => tail § )", "fork ( => head § => tail § ) | merge §", "yield f\"{§}\"", "assert §", "search §", "yield {a:§,...§}, [§,...§], |[§]|, |{§:§}|",
+	"from § | head §", "file § format §", "get § method §", "yield now()-§, time(§), duration(§), ksuid(§), hex(§), base64(§), len(§), typeof(§), nameof(§), error(§), quiet(§), has(§), coalesce(§,§), compare(§,§,§)"}
+
+var hostileArgs = []string{"0", "1", "2", "-1", "-0", "uint8(1)", "uint16(3)", "uint32(1)", "uint64(2)", "int8(-1)", "int16(2)", "int32(3)", "int64(2)", "float16(2)", "float32(2)", "float64(2)", "1.5", "1e308", "-1e308", "1e-400", "NaN", "+Inf",
+	"9223372036854775807", "9223372036854775808", "18446744073709551615", "18446744073709551616", "-9223372036854775808", "-9223372036854775809", "uint64(18446744073709551615)", "int64(uint64(18446744073709551615))", "uint8(256)", "int8(128)",
+	"\"1\"", "\"\"", "'a'", "null", "null(int64)", "null(uint8)", "true", "false", "N", "this", "a", "a.b", "1+1", "1/0", "1%0", "1.0/0", "len(a)", "count()", "[1]", "[]", "{a:1}", "{}", "|[1]|", "|{1:2}|", "<int64>", "<uint8>", "<{a:int64}>", "<T>", "int64", "uint8",
+	"1h", "-1h", "0s", "1ns", "2020-01-01T00:00:00Z", "10.0.0.1", "::1", "10.0.0.0/8", "0x", "0x10", "error(1)", "error(\"missing\")", "missing(a)", "now()", "/a*/", "/(/", "*", "%x", "1::uint8", "(1)", "((1))", "-(1)", "- 1", "1 ", "1,2", "1;2", "$1", "§"}
+
+func genArgQuery(t *rapid.T) string {
+	q := rapid.SampledFrom(argTemplates).Draw(t, "argtemplate")
+	var sb strings.Builder
+	for _, r := range q {
+		if r == '§' {
+			sb.WriteString(rapid.SampledFrom(hostileArgs).Draw(t, "arg"))
+		} else {
+			sb.WriteRune(r)
+		}
+	}
+	return sb.String()
+}
+
 var fallbackQueries = []string{"count() by a | sort -r count", "where a==1 and b in [1,2] | put c:=a+1 | cut a,c", "over a => ( yield this ) | head 1",
 	"yield {a:1,b:[1,2],c:|{1:2}|,d:<int64>} | summarize collect(a) by typeof(b)", "fork (=> count() => sum(a)) | merge a", "const X=1 func f(x):(x+X) op o(y):(yield f(y)) o(1)"}
 
@@ -171,12 +200,19 @@ func genQuery(t *rapid.T) Case {
 	if len(pool) == 0 {
 		pool = fallbackQueries
 	}
-	if rapid.IntRange(0, 3).Draw(t, "extra?") == 3 {
+	argQuery := false
+	if k := rapid.IntRange(0, 7).Draw(t, "extra?"); k >= 6 {
 		c.Query = rapid.SampledFrom(extraQueries).Draw(t, "extraquery")
+	} else if k >= 4 {
+		c.Query = genArgQuery(t)
+		argQuery = true
 	} else {
 		c.Query = rapid.SampledFrom(pool).Draw(t, "query")
 	}
 	n := rapid.SampledFrom([]int{0, 1, 1, 1, 2, 2, 3, 4, 6}).Draw(t, "nmut")
+	if argQuery && n > 1 {
+		n = 0 // these programs are short: more than one token mutation leaves little of them
+	}
 	ops := []string{"del", "del", "dup", "dup", "swap", "ins", "ins", "ins", "splice", "trunc", "subst", "subst", "subst", "subst"}
 	for i := 0; i < n; i++ {
 		m := QMut{Op: rapid.SampledFrom(ops).Draw(t, "op"), Pos: rapid.IntRange(0, 400).Draw(t, "pos")}
@@ -289,7 +325,7 @@ func runQuery(c Case) *vt.Outcome {
 var queryProp = &vt.Prop[Case]{
 	Name:      "TestQuery",
 	CaseLimit: 90 * time.Second,
-	Rule: "case = program from compiler/parser/valid.zed, invalid.zed or the zed: field of a repo ztest, mutated by 0..6 token-level steps (delete, duplicate (up to 200x), swap, insert a hostile token, splice with another program, truncate); " +
+	Rule: "case = program from compiler/parser/valid.zed, invalid.zed or the zed: field of a repo ztest (or, 25%, a hand-written program covering rarer syntax, or, 25%, an argument template - operators, functions and declarations whose arguments are inspected at compile time - filled with constants of every type and at every boundary, e.g. `top uint64(2) a`, `const N=-1 head N`), mutated by 0..6 token-level steps (delete, duplicate (up to 200x), swap, insert a hostile token, splice with another program, truncate); " +
 		"compiler.Parse + compiler.NewJob (semantic analysis over data.NewSource(nil,nil)) + Job.Optimize must return or error without panic (watchdog covers hangs). " +
 		"Non-trivial: the mutated text differs from the corpus program and still parses (semantic analysis was reached).",
 	Gen: genQuery,
